@@ -522,14 +522,12 @@ func (r *Runner) builtin(ctx context.Context, pos syntax.Pos, name string, args 
 	case "test":
 		parseErr := false
 		p := testParser{
-			rem: args,
 			err: func(err error) {
 				r.errf("%v: %v\n", pos, err)
 				parseErr = true
 			},
 		}
-		p.next()
-		expr := p.classicTest("[", false)
+		expr := p.posixTest(args)
 		if parseErr {
 			exit.code = 2
 			return exit
